@@ -738,6 +738,68 @@ def single_use_generator_rule(ctx, rid: str, pid: str, floor: int = 0):
     return n
 
 
+
+def memo_invalidation_rule(ctx, rid: str, pid: str, floor: int = 0):
+    """A value memoised in a field (`if self._m is None: self._m = f(self._a, ...)`) is dropped wherever one of the fields it was computed from is reassigned."""
+    repo = ctx.repo
+    ctx.rule(rid, 'memo follows its sources: where a class fills a field lazily under `if self.<m> is None:` from other fields of self (no await: a fetched handle is not a memo), every '
+             'other method that assigns or augments one of those source fields (outside __init__ / __setstate__, and not itself a lazy fill of that source) also assigns <m>, directly or '
+             'through an own method that does - otherwise the next reader gets the value of the old state', floor=floor, style='COH')
+
+    def is_self_attr(t):
+        return isinstance(t, ast.Attribute) and isinstance(t.value, ast.Name) and t.value.id == 'self'
+
+    def targets(st):
+        return st.targets if isinstance(st, ast.Assign) else [st.target]
+    seen_cls = []
+    for m, ci, fn in _functions(repo, pid):
+        if ci is not None and ci not in seen_cls:
+            seen_cls.append(ci)
+    n = 0
+    for ci in sorted(seen_cls, key=lambda c: c.qual):
+        memos: Dict[str, set] = {}
+        lazy_writes = set()
+        for mn, fn in ci.methods.items():
+            for iff in ast.walk(fn):
+                if not (isinstance(iff, ast.If) and isinstance(iff.test, ast.Compare) and len(iff.test.ops) == 1 and isinstance(iff.test.ops[0], ast.Is)
+                        and is_self_attr(iff.test.left) and isinstance(iff.test.comparators[0], ast.Constant) and iff.test.comparators[0].value is None):
+                    continue
+                mname = iff.test.left.attr
+                fills = [st for st in iff.body if isinstance(st, ast.Assign) and any(is_self_attr(t) and t.attr == mname for t in st.targets)]
+                if not fills or any(isinstance(x, ast.Await) for s_ in iff.body for x in ast.walk(s_)):
+                    continue
+                for st in fills:
+                    lazy_writes.add(id(st))
+                src = {x.attr for s_ in iff.body for x in ast.walk(s_) if is_self_attr(x) and isinstance(x.ctx, ast.Load) and x.attr != mname and x.attr not in ci.methods}
+                memos.setdefault(mname, set()).update(src)
+        for mname, src in sorted(memos.items()):
+            if not src:
+                continue
+
+            def assigns_memo(fn, depth=0):
+                for st in ast.walk(fn):
+                    if isinstance(st, (ast.Assign, ast.AugAssign, ast.AnnAssign)) and any(is_self_attr(t) and t.attr == mname for t in (targets(st) if not isinstance(st, ast.AnnAssign) else [st.target])):
+                        return True
+                    if isinstance(st, ast.Delete) and any(is_self_attr(t) and t.attr == mname for t in st.targets):
+                        return True
+                if depth < 2:
+                    for c in ast.walk(fn):
+                        if isinstance(c, ast.Call) and is_self_attr(c.func) and c.func.attr in ci.methods and ci.methods[c.func.attr] is not fn and assigns_memo(ci.methods[c.func.attr], depth + 1):
+                            return True
+                return False
+            for mn, fn in sorted(ci.methods.items()):
+                if mn in ('__init__', '__new__', '__setstate__', '__post_init__'):
+                    continue
+                ws = [st for st in ast.walk(fn) if isinstance(st, (ast.Assign, ast.AugAssign)) and id(st) not in lazy_writes
+                      and any(is_self_attr(t) and t.attr in src for t in targets(st))]
+                if not ws:
+                    continue
+                n += 1
+                ok = assigns_memo(fn)
+                ctx.ob(rid, f'{ci.qual}.{mn}:memo-{mname}', ok, '' if ok else
+                       f'`{ast.unparse(ws[0])[:60]}` changes a field that the memoised `{mname}` was computed from ({sorted(src)}), but {mn} leaves `{mname}` as it is', ci.mod.rel, ws[0].lineno)
+    return n
+
 FLOORS = {   # (z_fwd, z_drop, z_pair): about two thirds of the instances confirmed on the tree the rules were armed on
     'C01': (7, 40, 11),
     'C02': (4, 55, 8),
@@ -772,11 +834,12 @@ def apply(ctx, pid: str, only=None):
         'z_ctor': lambda: constructor_purity_rule(ctx, f'{pid}.z_ctor', pid, floor=1),
         'z_opt': lambda: optional_argument_purity_rule(ctx, f'{pid}.z_opt', pid, floor=0),
         'z_gen': lambda: single_use_generator_rule(ctx, f'{pid}.z_gen', pid, floor=0),
+        'z_memo': lambda: memo_invalidation_rule(ctx, f'{pid}.z_memo', pid, floor=0),
     }
     out = {}
     for k, f in rules.items():
         if only is None or k in only:
             out[k] = f()
     ctx.decided.append(f'{pid}.z_* general rules on the functions attributed to this property: sibling calls forward the same parameters (z_fwd), a wrapper does not swallow an option its '
-                       'callee accepts (z_drop), positional pairing only over ordered collections (z_pair), presence of a key is not tested by truthiness of the value (z_get), constructors do not mutate their arguments (z_ctor), optional option bags are inputs only (z_opt), generators are consumed once (z_gen)')
+                       'callee accepts (z_drop), positional pairing only over ordered collections (z_pair), presence of a key is not tested by truthiness of the value (z_get), constructors do not mutate their arguments (z_ctor), optional option bags are inputs only (z_opt), generators are consumed once (z_gen), a lazily memoised field is dropped wherever its source fields are reassigned (z_memo)')
     return out
